@@ -44,6 +44,9 @@ pub struct Scn {
     pub name: u8,
     /// fault batch: 0 = crash points, 1 = I/O error at every step, 2 = disk full after b bytes
     pub batch: u8,
+    /// peers that announce right before every cleaning pass and have expired by the time it runs
+    #[serde(default)]
+    pub ghosts: u8,
 }
 
 fn ih(t: u16) -> [u8; 20] {
@@ -80,10 +83,28 @@ struct World {
     rng: SmallRng,
     /// model: (v6, torrent) -> host -> seeder
     model: BTreeMap<(bool, u16), BTreeMap<u8, bool>>,
+    rx: crossbeam_channel::Receiver<aquatic_udp::common::StatisticsMessage>,
+    /// PeerAdded minus PeerRemoved per peer id, as the statistics worker would count them
+    tally: BTreeMap<u8, i64>,
+    ghosts: u8,
+    nt: u16,
+    tally_reliable: bool,
 }
 
 impl World {
     fn announce(&mut self, a: &A) {
+        self.announce_until(a, 1_000_000);
+        let e = self.model.entry((a.v6, a.t)).or_default();
+        if a.stop {
+            e.remove(&a.h);
+        } else {
+            e.insert(a.h, a.seeder);
+        }
+        if e.is_empty() {
+            self.model.remove(&(a.v6, a.t));
+        }
+    }
+    fn announce_until(&mut self, a: &A, until: u32) {
         let req = AnnounceRequest {
             connection_id: ConnectionId::new(0),
             action_placeholder: Default::default(),
@@ -101,17 +122,8 @@ impl World {
         };
         let ip = if a.v6 { IpAddr::V6(Ipv6Addr::new(0x2001, 0xdb8, 0, 0, 0, 0, 0, a.h as u16 + 1)) } else { IpAddr::V4(Ipv4Addr::new(10, 0, 0, a.h)) };
         let src = CanonicalSocketAddr::new(SocketAddr::new(ip, 5000));
-        let vu = ValidUntil::new_raw(SecondsSinceServerStart::new_raw(1_000_000));
+        let vu = ValidUntil::new_raw(SecondsSinceServerStart::new_raw(until));
         self.maps.announce(&self.config, &self.tx, &mut self.rng, &req, src, vu);
-        let e = self.model.entry((a.v6, a.t)).or_default();
-        if a.stop {
-            e.remove(&a.h);
-        } else {
-            e.insert(a.h, a.seeder);
-        }
-        if e.is_empty() {
-            self.model.remove(&(a.v6, a.t));
-        }
     }
     fn expected_lines(&self) -> Lines {
         let mut out = Lines::new();
@@ -122,9 +134,46 @@ impl World {
         }
         out
     }
-    fn export(&self) -> Result<(), String> {
+    /// One cleaning pass with export. Peers that have already expired (valid until 5, pass at 10)
+    /// announce first: the pass has to drop them whatever happens to the export file.
+    /// Returns what the pass reported: [torrents v4, peers v4, torrents v6, peers v6].
+    fn export(&mut self) -> Result<[usize; 4], String> {
+        use std::sync::atomic::Ordering::Relaxed;
+        for g in 0..self.ghosts {
+            let a = A { t: g as u16 % self.nt.max(1), h: 100 + g, v6: g % 2 == 1, seeder: g % 3 == 0, stop: false };
+            self.announce_until(&a, 5);
+        }
         let st: aquatic_udp::common::CachePaddedArc<aquatic_udp::common::IpVersionStatistics<aquatic_udp::common::SwarmWorkerStatistics>> = Default::default();
-        catch(|| self.maps.clean_and_update_statistics(&self.config, &st, &self.tx, &self.access, SecondsSinceServerStart::new_raw(10), true))
+        let r = catch(|| self.maps.clean_and_update_statistics(&self.config, &st, &self.tx, &self.access, SecondsSinceServerStart::new_raw(10), true));
+        while let Ok(m) = self.rx.try_recv() {
+            match m {
+                aquatic_udp::common::StatisticsMessage::PeerAdded(p) => *self.tally.entry(p.0[0]).or_default() += 1,
+                aquatic_udp::common::StatisticsMessage::PeerRemoved(p) => *self.tally.entry(p.0[0]).or_default() -= 1,
+                _ => {}
+            }
+        }
+        self.tally.retain(|_, v| *v != 0);
+        r.map(|_| [st.ipv4.torrents.load(Relaxed), st.ipv4.peers.load(Relaxed), st.ipv6.torrents.load(Relaxed), st.ipv6.peers.load(Relaxed)])
+    }
+    /// totals and per-client tallies against the model, after a pass that was not killed
+    fn check_totals(&self, got: [usize; 4], what: &str) -> Option<Violation> {
+        let mut want = [0usize; 4];
+        let mut ids: BTreeMap<u8, i64> = BTreeMap::new();
+        for ((v6, _), peers) in &self.model {
+            let o = if *v6 { 2 } else { 0 };
+            want[o] += 1;
+            want[o + 1] += peers.len();
+            for h in peers.keys() {
+                *ids.entry(*h).or_default() += 1;
+            }
+        }
+        if got != want {
+            return Some(Violation::new("C20", "totals-match-storage", "totals-after-pass", format!("{}: the pass reported torrents/peers v4 {}/{} v6 {}/{} but {}/{} and {}/{} are stored", what, got[0], got[1], got[2], got[3], want[0], want[1], want[2], want[3])));
+        }
+        if self.tally_reliable && self.tally != ids {
+            return Some(Violation::new("C20", "client-tally", "tally-after-pass", format!("{}: peer-id tally from the statistics messages {:?} but stored peers carry {:?}", what, self.tally, ids)));
+        }
+        None
     }
 }
 
@@ -147,7 +196,8 @@ impl Harness for ExportCrash {
             2 => r.range(150, 200) as u16,
             _ => r.range(330, 420) as u16,
         };
-        Scn { pre, mid, bulk, name: r.below(4) as u8, batch: r.below(3) as u8 }
+        let (name, batch) = (r.below(4) as u8, r.below(3) as u8);
+        Scn { pre, mid, bulk, name, batch, ghosts: if r.chance(600) { r.range(1, 5) as u8 } else { 0 } }
     }
 
     fn execute(scn: &Scn, _prop: &str, stats: &mut Stats) -> Outcome {
@@ -165,9 +215,12 @@ impl Harness for ExportCrash {
         config.scrape_exports.enable_scrape_exports = true;
         config.scrape_exports.path = path.clone();
         config.protocol.max_response_peers = 1;
+        config.statistics.write_html_to_file = true;
+        config.statistics.peer_clients = true;
         let tmp_path = config.scrape_exports.tmp_path();
-        let (tx, _rx) = crossbeam_channel::unbounded();
-        let mut w = World { maps: TorrentMaps::default(), config, tx, access: Arc::new(AccessListArcSwap::default()), rng: SmallRng::seed_from_u64(3), model: BTreeMap::new() };
+        let (tx, rx) = crossbeam_channel::unbounded();
+        let nt = scn.pre.iter().chain(scn.mid.iter()).map(|a| a.t + 1).max().unwrap_or(1);
+        let mut w = World { maps: TorrentMaps::default(), config, tx, access: Arc::new(AccessListArcSwap::default()), rng: SmallRng::seed_from_u64(3), model: BTreeMap::new(), rx, tally: BTreeMap::new(), ghosts: scn.ghosts, nt, tally_reliable: scn.batch % 3 != 0 };
         let mut violations = Vec::new();
         let mut fp = 0u64;
         let fold = |h: &mut u64, x: u64| *h = (*h ^ x).wrapping_mul(0x100000001b3).rotate_left(9);
@@ -178,9 +231,17 @@ impl Harness for ExportCrash {
             w.announce(a);
         }
         // ---- export k, undisturbed
-        if let Err(m) = w.export() {
-            violations.push(Violation::new("C20", "export-panic", "export-panic", format!("export panicked: {}", m)));
-            return Outcome { violations, fingerprint: fp, signature: None };
+        match w.export() {
+            Err(m) => {
+                violations.push(Violation::new("C20", "export-panic", "export-panic", format!("export panicked: {}", m)));
+                return Outcome { violations, fingerprint: fp, signature: None };
+            }
+            Ok(got) => {
+                if let Some(v) = w.check_totals(got, "undisturbed pass") {
+                    violations.push(v);
+                    return Outcome { violations, fingerprint: fp, signature: None };
+                }
+            }
         }
         stats.evaluations += 1;
         let k_bytes = std::fs::read(&path).unwrap_or_default();
@@ -197,9 +258,17 @@ impl Harness for ExportCrash {
         let e_lines = w.expected_lines();
         // ---- undisturbed export k+1: count steps, then put export k back
         fs::reset_steps();
-        if let Err(m) = w.export() {
-            violations.push(Violation::new("C20", "export-panic", "export-panic", format!("export panicked: {}", m)));
-            return Outcome { violations, fingerprint: fp, signature: None };
+        match w.export() {
+            Err(m) => {
+                violations.push(Violation::new("C20", "export-panic", "export-panic", format!("export panicked: {}", m)));
+                return Outcome { violations, fingerprint: fp, signature: None };
+            }
+            Ok(got) => {
+                if let Some(v) = w.check_totals(got, "second undisturbed pass") {
+                    violations.push(v);
+                    return Outcome { violations, fingerprint: fp, signature: None };
+                }
+            }
         }
         let n_steps = fs::steps();
         let trace = fs::trace();
@@ -307,6 +376,17 @@ impl Harness for ExportCrash {
                 }
                 (_, Ok(which)) => stats.probe(if *which == "old" { "fault-left-previous-export" } else { "fault-left-complete-new-export" }),
             }
+            // a failed export is not a failed pass: expired peers are gone and the totals are right
+            if let Ok(got) = &r {
+                stats.evaluations += 1;
+                if let Some(v) = w.check_totals(*got, &what) {
+                    violations.push(v);
+                    break;
+                }
+                if w.ghosts > 0 {
+                    stats.probe("pass-with-failed-export-still-expires-peers");
+                }
+            }
         }
         restore(&k_bytes);
         for (k, v) in fs::fired() {
@@ -344,6 +424,11 @@ impl Harness for ExportCrash {
         if scn.name != 0 {
             let mut s = scn.clone();
             s.name = 0;
+            out.push(s);
+        }
+        if scn.ghosts > 0 {
+            let mut s = scn.clone();
+            s.ghosts -= 1;
             out.push(s);
         }
         out
